@@ -95,10 +95,20 @@ def check(item, tier):
                 def results(self):
                     return None
 
+            reuse = (m + episodes) % 2 == 1
+
             def body(rng, seed=0):
+                learner = rm.RMAX(episodes=episodes, rmax=rmax, num_transition_samples=m, bellman_convergence_diff=diff, seed=seed,
+                                  event_listener_class=Listener)
+                if reuse:
+                    # learner objects are reusable: one earlier training run on the same problem (default answers, not explored)
+                    with patched_random(Explorer(bound=0, max_points=600)):
+                        try:
+                            learner.train_on(mdp)
+                        except BaseException:
+                            pass
                 del log[:]
-                return rm.RMAX(episodes=episodes, rmax=rmax, num_transition_samples=m, bellman_convergence_diff=diff, seed=seed,
-                               event_listener_class=Listener).train_on(mdp)
+                return learner.train_on(mdp)
 
             def judge(res, sched):
                 c = dict(ctx, schedule=sched)
